@@ -33,6 +33,7 @@ TokText(id) == CASE id = "s.pn" -> "ex:a"           [] id = "s.abs" -> "<http://
                  [] id = "o.spec" -> "\"a # b ; c , d . e\""    [] id = "o.esc" -> "\"q\\\"u\\\\\""
                  [] id = "o.cls" -> "ex:C"
                  [] id = "o.https" -> "<https://s.org/x>"  [] id = "s.https" -> "<https://s.org/y#z>"  [] id = "o.urn" -> "<urn:x:1>"
+                 [] id = "s.bs" -> "base:s1"  [] id = "p.bs" -> "prefixes:p1"  [] id = "o.bs" -> "base:o1"   \* labels that begin like a directive keyword
                  [] id = "@re" -> "@prefix ex: <http://ex2.org/> ."      \* a directive in the middle of the document re-binds the label
                  [] OTHER -> id                      \* punctuation ; , .
 \* token id -> the RDF term a standard Turtle parser produces (objects: kind + IRI / label, literals: datatype)
@@ -50,10 +51,11 @@ TokTerm(id) == CASE id = "s.pn" -> <<"IRI", EXNS \o "a">>   [] id = "s.abs" -> <
                  [] id = "o.spec" -> <<XSD_STRING, "">>      [] id = "o.esc" -> <<XSD_STRING, "">>
                  [] id = "o.cls" -> <<"IRI", EXNS \o "C">>
                  [] id = "o.https" -> <<"IRI", "https://s.org/x">>  [] id = "s.https" -> <<"IRI", "https://s.org/y#z">>
+                 [] id = "s.bs" -> <<"IRI", "http://bb.org/s1">>  [] id = "p.bs" -> <<"IRI", "http://pp.org/p1">>  [] id = "o.bs" -> <<"IRI", "http://bb.org/o1">>
                  [] id = "o.urn" -> <<"IRI", BASE \o "urn:x:1">>      \* documented divergence: only http(s) IRIs count as absolute
-SubjToks == {"s.pn", "s.abs", "s.rel", "s.bn", "s.https"}
-PredToks == {"p.pn", "p.a", "p.abs", "p.type"}
-ObjToks == {"o.pn", "o.abs", "o.rel", "o.bn", "o.int", "o.str", "o.xsd", "o.dti", "o.dtp", "o.dtg", "o.lang", "o.spec", "o.esc", "o.cls", "o.https"}
+SubjToks == {"s.pn", "s.abs", "s.rel", "s.bn", "s.https", "s.bs"}
+PredToks == {"p.pn", "p.a", "p.abs", "p.type", "p.bs"}
+ObjToks == {"o.pn", "o.abs", "o.rel", "o.bn", "o.int", "o.str", "o.xsd", "o.dti", "o.dtp", "o.dtg", "o.bs", "o.lang", "o.spec", "o.esc", "o.cls", "o.https"}
 Punct == {";", ",", "."}
 
 \* abstract triples of a token sequence S P O (, O)* (; P O (, O)*)* . ...   (what a standard parser yields)
@@ -89,7 +91,8 @@ WellFormed(toks, i, st) ==      \* st: what is expected next: "S", "P", "O", "X"
 Gaps == {"sp", "sp2", "tab", "nl", "nlsp", "cmt", "cline"}
 HeaderLines == << Chars("@prefix ex: <http://ex.org/> ."), Chars("@prefix xsd: <http://www.w3.org/2001/XMLSchema#> ."),
                   Chars("@prefix rdf: <http://www.w3.org/1999/02/22-rdf-syntax-ns#> ."),
-                  Chars("@prefix geo: <http://www.w3.org/2003/01/geo/wgs84_pos#> ."), Chars("@base <http://b.org/d/> .") >>
+                  Chars("@prefix geo: <http://www.w3.org/2003/01/geo/wgs84_pos#> ."), Chars("@prefix base: <http://bb.org/> ."),
+                  Chars("@prefix prefixes: <http://pp.org/> ."), Chars("@base <http://b.org/d/> .") >>
 CommentTail == <<" ", "#", " ", "c", " ", "\"", " ", ".">>          \* trailing comment (with a quote and a dot inside)
 CommentLine == <<"#", " ", "l", "i", "n", "e", " ", ";">>           \* a whole comment line
 \* the document as the sequence of its lines (the line reader splits on line breaks and skips blank lines)
